@@ -27,6 +27,8 @@ func sourceProfile(prop string, checks ...string) *Profile {
 	p.Weights[opSend] = 8
 	p.Weights[opDeliver] = 10
 	p.Weights[opSetID] = 1
+	p.Weights[opClockJump] = 2 // writers may carry Lamport clocks of any magnitude
+	p.ClockJumps = true
 	return p
 }
 
